@@ -1591,9 +1591,12 @@ fn c19_seq(rep: &mut Report, cl: &mut Client, rpr: bool, global: Option<M>, seq:
     cut
 }
 
+static MAX_CYCLES: std::sync::atomic::AtomicUsize = std::sync::atomic::AtomicUsize::new(2);
+
 pub fn c19(args: &Args) -> Report {
     let mut rep = args.report();
     let thorough = args.thorough();
+    MAX_CYCLES.store(if thorough { 2 } else { 1 }, std::sync::atomic::Ordering::Relaxed);
     let depth = if thorough { 4 } else { 3 };
     let mut alphabet: Vec<PAct> = Vec::new();
     for p in 0..4 {
@@ -1623,7 +1626,9 @@ pub fn c19(args: &Args) -> Report {
             return;
         }
         for a in alphabet {
-            if matches!(a, PAct::Cycle(_)) && seq.iter().filter(|x| matches!(x, PAct::Cycle(_))).count() >= 2 {
+            // at most two allocator cycles per history (one in the quick tier; the two-cycle histories that matter -
+            // the cursor passes a live index and wraps below it - are in the targeted list)
+            if matches!(a, PAct::Cycle(_)) && seq.iter().filter(|x| matches!(x, PAct::Cycle(_))).count() >= MAX_CYCLES.load(std::sync::atomic::Ordering::Relaxed) {
                 continue;
             }
             seq.push(*a);
@@ -1638,7 +1643,10 @@ pub fn c19(args: &Args) -> Report {
                     for b in &alphabet {
                         if rep.mine(idx) {
                             let mut seq = vec![*a, *b];
-                            rec(&mut rep, &mut cl, rpr, g, v1, &mut seq, &alphabet, depth);
+                            // quick tier: snapshots in the previous format are taken after every history of length 2 only
+                            // (loading the old format is little history-sensitive); thorough: full depth
+                            let d = if v1 && !thorough { 2 } else { depth };
+                            rec(&mut rep, &mut cl, rpr, g, v1, &mut seq, &alphabet, d);
                         }
                         idx += 1;
                     }
@@ -1658,6 +1666,11 @@ pub fn c19(args: &Args) -> Report {
             vec![m(1), m(3), m(4), PAct::Umount { path: 3 }, m(1)],
             vec![m(4), m(1), m(3), PAct::Umount { path: 4 }, m(4)],
             vec![m(2), m(3), m(5), PAct::Umount { path: 2 }, PAct::Umount { path: 3 }],
+            // the allocator cursor passes a live mount (with and without a per-mount mapping) and wraps below it
+            vec![PAct::Cycle(200), PAct::Mount { path: 1, map: 1 }, PAct::Cycle(54), m(3)],
+            vec![PAct::Cycle(200), m(1), PAct::Cycle(54), PAct::Mount { path: 3, map: 3 }],
+            vec![PAct::Cycle(200), PAct::Mount { path: 3, map: 3 }, PAct::Cycle(54), PAct::Umount { path: 3 }],
+            vec![PAct::Cycle(254), PAct::Mount { path: 1, map: 1 }, PAct::Cycle(200)],
         ];
         for rpr in [false, true] {
             for g in [None, Some((0u32, 1000u32, 10u32))] {
